@@ -97,3 +97,12 @@ package record
 //@   requires b != nil
 //@   pure
 //@   ensures r0 == b.meta
+
+// the relative expiry is -1 exactly for records without expiry and never negative otherwise
+// (0: no time left)
+//@ func (*Meta).GetRelativeExpiry
+//@   requires m != nil
+//@   nopanic off
+//@   ensures old(m.Expires) == 0 ==> r0 == -1
+//@   ensures old(m.Expires) != 0 ==> r0 >= 0
+//@   ensures m.Expires == old(m.Expires)
